@@ -48,9 +48,9 @@ const c15Inline = 2048
 func init() { register("c15", runC15) }
 
 type c15Op struct {
-	kind    string // put get del ids flush
+	kind    string // put get del ids flush lose
 	id      int
-	content int // index into contents
+	content int // index into contents (lose: index of the leaf store that loses the part)
 	notx    bool
 }
 
@@ -458,6 +458,18 @@ func (rn *c15Runner) run(k int, seed uint64, c *c15Case) {
 					res = "err open"
 				}
 				out.Line("get %s %d %s%s", mode(notx), op.id, res, pan())
+			case "lose":
+				// a fault below the stack (directed cases only): one leaf store loses the part
+				lf := st.Leaves[op.content]
+				var err error
+				if lf.Kind == "fs" {
+					err = lf.Store.DeletePart(ctx, nil, ids[op.id])
+				} else {
+					err = rn.tx(false, func(ctx context.Context, tx database.Tx) error {
+						return lf.Store.DeletePart(ctx, tx, ids[op.id])
+					})
+				}
+				out.Line("lose %d %d %s", op.content, op.id, okStr15(err))
 			case "ids":
 				var got []partstore.PartId
 				err := rn.tx(true, func(ctx context.Context, tx database.Tx) error {
@@ -553,6 +565,10 @@ func c15Directed(tier string) []*c15Case {
 	add("sql", []verifx.Letter{L("t"), L("t")}, [][]byte{{7}, {}, r.Bytes(3000)}, std(3), 1)
 	add("fs", []verifx.Letter{L("e:2:1:1024"), L("o")}, [][]byte{r.Bytes(10)}, []c15Op{{kind: "get", id: 0, notx: true}, {kind: "ids"},
 		{kind: "put", id: 0, content: 0}, {kind: "get", id: 0, notx: true}, {kind: "flush"}, {kind: "get", id: 0, notx: true}}, 1)
+	// 4: a shard really goes missing below erasure coding over outbox shard stores; a tx-free read then heals
+	// with a nil transaction (the outbox has no tx-free PutPart)
+	add("fs", []verifx.Letter{L("e:2:1:1024"), L("o")}, [][]byte{r.Bytes(3000)}, []c15Op{{kind: "put", id: 0, content: 0}, {kind: "flush"},
+		{kind: "lose", id: 0, content: 0}, {kind: "get", id: 0, notx: true}, {kind: "get", id: 0}, {kind: "flush"}, {kind: "get", id: 0, notx: true}, {kind: "ids"}}, 1)
 	// every single letter over both bases with its boundary sizes ±1, three content kinds
 	letters := []string{"z:2048", "g:2048", "z:65536", "t", "c:5000", "o", "e:1:1:1024", "e:2:1:1024", "e:2:2:1024", "e:3:2:1024"}
 	for _, base := range []string{"fs", "sql"} {
